@@ -373,9 +373,9 @@ SplitStmts == << Stmt("grouping", "g", << Leaf("gl") >>), Leaf("l1"),
 PartBody(asg, part) == SelectSeq([k \in 1..4 |-> [s |-> SplitStmts[k], p |-> asg[k]]], LAMBDA x : x.p = part)
 Body(asg, part) == LET b == PartBody(asg, part) IN [k \in 1..Len(b) |-> b[k].s]
 SplitProg(asg, inc) ==
-  LET mInc == CASE inc = "flat" -> <<"s1", "s2">> [] inc = "nested" -> <<"s1">> [] inc = "both" -> <<"s1", "s2">> [] inc = "rev" -> <<"s2">>
+  LET mInc == CASE inc = "flat" -> <<"s1", "s2", "s3">> [] inc = "nested" -> <<"s1">> [] inc = "both" -> <<"s1", "s2", "s3">> [] inc = "rev" -> <<"s3", "s2">>
       s1Inc == CASE inc \in {"nested", "both"} -> <<"s2">> [] OTHER -> <<>>
-      s2Inc == CASE inc = "rev" -> <<"s1">> [] OTHER -> <<>>
+      s2Inc == CASE inc = "rev" -> <<"s1">> [] inc = "nested" -> <<"s3">> [] OTHER -> <<>>
       m == Mod("m", NoImp, mInc, Body(asg, "m") \o << Stmt("container", "c1", << Uses("", "g") >>) >>)
       b == Mod("b", [x \in {"m"} |-> "m"], <<>>, << Aug(<< Q("m","c2") >>, << Leaf("y") >>), Aug(<< Q("m","c1") >>, << Leaf("z") >>) >>)
       \* augments written inside the submodules, aimed at their own module through the belongs-to prefix
@@ -383,10 +383,14 @@ SplitProg(asg, inc) ==
       \* ... and through an absolute path without prefixes (the submodule's text is the module's text)
       s2Aug == << Aug(<< Q("m","c1") >>, << Leaf("from_s2") >>), Aug(<< Q("","li") >>, << Leaf("li_s2") >>),
                   Stmt("deviation", << Q("","l1") >>, << Stmt("deviate", "add", << Stmt("units", "u", <<>>) >>) >>) >>
-      \* a use, written in s1, of the grouping wherever it lives (the module itself, s1, or the sibling s2)
+      \* a use, written in s1 and another one in s2, of the grouping wherever it lives (the module itself, the same
+      \* submodule, a sibling included earlier or - s3 - later)
       s1Use == << Stmt("container", "c3", << Uses("", "g") >>) >>
+      s2Use == << Stmt("container", "c4", << Uses("", "g") >>) >>
   IN Prog(("m" :> m) @@ ("s1" :> Sub("s1", "m", NoImp, s1Inc, Body(asg, "s1") \o s1Aug \o s1Use))
-          @@ ("s2" :> Sub("s2", "m", NoImp, s2Inc, Body(asg, "s2") \o s2Aug)) @@ ("b" :> b))
-SSplit(dummy) == { SplitProg(asg, inc) : asg \in [1..4 -> {"m", "s1", "s2"}], inc \in {"flat", "nested", "both", "rev"} }
-MCOrder3 == <<"m", "s1", "s2", "b">>
+          @@ ("s2" :> Sub("s2", "m", NoImp, s2Inc, Body(asg, "s2") \o s2Aug \o s2Use))
+          @@ ("s3" :> Sub("s3", "m", NoImp, <<>>, Body(asg, "s3"))) @@ ("b" :> b))
+\* (the grouping may live in any of the four texts; the other three statements in the module or the first two submodules)
+SSplit(dummy) == { SplitProg(asg, inc) : asg \in {f \in [1..4 -> {"m", "s1", "s2", "s3"}] : \A k \in 2..4 : f[k] # "s3"}, inc \in {"flat", "nested", "both", "rev"} }
+MCOrder3 == <<"m", "s1", "s2", "s3", "b">>
 ====
